@@ -8,6 +8,7 @@ mod driver;
 mod report;
 mod e1_codec;
 mod e1_quorum;
+mod e1_timer;
 mod e1_unit;
 mod e2_batchmaker;
 mod e2_mempoolsync;
@@ -111,6 +112,7 @@ fn main() {
         "ownbatch" => e2_ownbatch::run(&o),
         "mempoolsync" => e2_mempoolsync::run(&o),
         "syncretry" => e2_syncretry::run(&o),
+        "timer" => e1_timer::run(&o),
         "mempoolsync-selftest" => e2_mempoolsync::selftest(&o),
         "quorumwaiter" => e2_quorumwaiter::run(&o),
         "cons" => e3_cons::run(&o),
